@@ -31,6 +31,29 @@ type workloadOpts struct {
 	ThreadSeed uint64 // isolation runs: seed of the per-thread private choice streams
 	ErrOnly bool // injected faults are errors only, no panics
 	Xattr   bool // include xattr sub-protocol requests
+	// BadFrames: now and then a thread sends a well-delimited frame the
+	// server cannot decode (unknown type, body too short); the server owes it
+	// an Rlerror, written like any other reply.
+	BadFrames bool
+}
+
+// badFrame builds a well-delimited undecodable frame.
+func badFrame(tag uint16, kind int) []byte {
+	var typ byte
+	var body []byte
+	switch kind % 4 {
+	case 0:
+		typ = 3 // not a 9P2000.L message type
+	case 1:
+		typ, body = 211, []byte{1, 2, 3, 4, 5} // unknown type with a body
+	case 2:
+		typ, body = rc.TypeTwalk, []byte{1, 0} // body shorter than the fixed part
+	case 3:
+		typ, body = rc.TypeTwrite, []byte{1, 0, 0, 0, 9} // payload type, short body
+	}
+	n := 7 + len(body)
+	b := []byte{byte(n), byte(n >> 8), 0, 0, typ, byte(tag), byte(tag >> 8)}
+	return append(b, body...)
 }
 
 type fidState struct {
@@ -398,7 +421,19 @@ func runRandomWorkload(rcx *RunCtx, o workloadOpts) {
 				simrt.Current().Role = "peer"
 				for k := 0; k < th.nops; k++ {
 					m, upd := th.genOp(o)
-					req := th.conn.Send(th.conn.Tag(), m)
+					var req *FrameRec
+					if o.BadFrames && simrt.Choose(12) == 0 {
+						// in place of the drawn request
+						upd = nil
+						nf := len(th.conn.Mon.Req.Frames)
+						th.conn.SendRaw(badFrame(th.conn.Tag(), simrt.Choose(4)))
+						rcx.Count("undecodable_requests", 1)
+						if len(th.conn.Mon.Req.Frames) > nf {
+							req = th.conn.Mon.Req.Frames[len(th.conn.Mon.Req.Frames)-1]
+						}
+					} else {
+						req = th.conn.Send(th.conn.Tag(), m)
+					}
 					if req == nil {
 						break
 					}
